@@ -10,38 +10,39 @@ open Generated
 /-- the documented schedule: (function, loop depth, guarded by `col != nil`?, callback set, time) -/
 def documentedSchedule : List (String × Nat × Bool × String × String) := [
   -- InvokeRenderCallbacks: table, columns, then rows, columns again, table again
-  ("InvokeRenderCallbacks", 0, false, "t.tableItselfCallbacks", "CB_AT_RENDER_PRECELL"),
-  ("InvokeRenderCallbacks", 1, false, "col.columnItselfCallbacks", "CB_AT_RENDER_PRECELL"),
-  ("InvokeRenderCallbacks", 0, false, "->row", "t.headerRow"),
-  ("InvokeRenderCallbacks", 1, false, "->row", "row"),
-  ("InvokeRenderCallbacks", 1, false, "col.columnItselfCallbacks", "CB_AT_RENDER_POSTCELL"),
-  ("InvokeRenderCallbacks", 0, false, "t.tableItselfCallbacks", "CB_AT_RENDER_POSTCELL"),
+  ("InvokeRenderCallbacks", 0, false, "tableItselfCallbacks", "CB_AT_RENDER_PRECELL"),
+  ("InvokeRenderCallbacks", 1, false, "columnItselfCallbacks", "CB_AT_RENDER_PRECELL"),
+  ("InvokeRenderCallbacks", 0, false, "->row", ""),
+  ("InvokeRenderCallbacks", 1, false, "->row", ""),
+  ("InvokeRenderCallbacks", 1, false, "columnItselfCallbacks", "CB_AT_RENDER_POSTCELL"),
+  ("InvokeRenderCallbacks", 0, false, "tableItselfCallbacks", "CB_AT_RENDER_POSTCELL"),
   -- per row: the row itself; per cell: pre-cell of table, column, row; render of table, cell;
   -- post-cell of row, column, table; the row again
-  ("invokeRenderCallbacks", 0, false, "row.rowItselfCallbacks", "CB_AT_RENDER_PRECELL"),
-  ("invokeRenderCallbacks", 1, false, "t.tableCellCallbacks", "CB_AT_RENDER_PRECELL"),
-  ("invokeRenderCallbacks", 1, true, "col.cellCallbacks", "CB_AT_RENDER_PRECELL"),
-  ("invokeRenderCallbacks", 1, false, "row.rowCellCallbacks", "CB_AT_RENDER_PRECELL"),
-  ("invokeRenderCallbacks", 1, false, "t.tableCellCallbacks", "CB_AT_RENDER"),
-  ("invokeRenderCallbacks", 1, false, "ptr.callbacks", "CB_AT_RENDER"),
-  ("invokeRenderCallbacks", 1, false, "row.rowCellCallbacks", "CB_AT_RENDER_POSTCELL"),
-  ("invokeRenderCallbacks", 1, true, "col.cellCallbacks", "CB_AT_RENDER_POSTCELL"),
-  ("invokeRenderCallbacks", 1, false, "t.tableCellCallbacks", "CB_AT_RENDER_POSTCELL"),
-  ("invokeRenderCallbacks", 0, false, "row.rowItselfCallbacks", "CB_AT_RENDER_POSTCELL"),
+  ("rowTraversal", 0, false, "rowItselfCallbacks", "CB_AT_RENDER_PRECELL"),
+  ("rowTraversal", 1, false, "tableCellCallbacks", "CB_AT_RENDER_PRECELL"),
+  ("rowTraversal", 1, true, "cellCallbacks", "CB_AT_RENDER_PRECELL"),
+  ("rowTraversal", 1, false, "rowCellCallbacks", "CB_AT_RENDER_PRECELL"),
+  ("rowTraversal", 1, false, "tableCellCallbacks", "CB_AT_RENDER"),
+  ("rowTraversal", 1, false, "callbacks", "CB_AT_RENDER"),
+  ("rowTraversal", 1, false, "rowCellCallbacks", "CB_AT_RENDER_POSTCELL"),
+  ("rowTraversal", 1, true, "cellCallbacks", "CB_AT_RENDER_POSTCELL"),
+  ("rowTraversal", 1, false, "tableCellCallbacks", "CB_AT_RENDER_POSTCELL"),
+  ("rowTraversal", 0, false, "rowItselfCallbacks", "CB_AT_RENDER_POSTCELL"),
   -- add time
-  ("Add", 0, false, "r.rowCellCallbacks", "CB_AT_ADD"),
-  ("AddRow", 0, false, "row.rowItselfCallbacks", "CB_AT_ADD"),
-  ("AddRow", 0, false, "t.tableRowAdditionCallbacks", "CB_AT_ADD"),
-  ("AddRow", 1, true, "col.cellCallbacks", "CB_AT_ADD"),
-  ("AddRow", 1, false, "t.tableCellCallbacks", "CB_AT_ADD"),
-  ("AddHeaders", 0, false, "t.tableRowAdditionCallbacks", "CB_AT_ADD"),
-  ("AddHeaders", 1, true, "col.cellCallbacks", "CB_AT_ADD"),
-  ("AddHeaders", 1, false, "t.tableCellCallbacks", "CB_AT_ADD")]
+  ("Add", 0, false, "rowCellCallbacks", "CB_AT_ADD"),
+  ("AddRow", 0, false, "rowItselfCallbacks", "CB_AT_ADD"),
+  ("AddRow", 0, false, "tableRowAdditionCallbacks", "CB_AT_ADD"),
+  ("AddRow", 1, true, "cellCallbacks", "CB_AT_ADD"),
+  ("AddRow", 1, false, "tableCellCallbacks", "CB_AT_ADD"),
+  ("AddHeaders", 0, false, "tableRowAdditionCallbacks", "CB_AT_ADD"),
+  ("AddHeaders", 1, true, "cellCallbacks", "CB_AT_ADD"),
+  ("AddHeaders", 1, false, "tableCellCallbacks", "CB_AT_ADD")]
 
-def isColGuard (g : String) : Bool := g == "col != nil" || g == "col := ptr.columnOfTable(); col != nil"
-def isHeaderGuard (g : String) : Bool := g == "t.headerRow != nil"
+def isColGuard (g : String) : Bool := g == "nonnil"
+def isHeaderGuard (g : String) : Bool := g == "header"
 
-/-- the source's calls, in order, projected to what the documented order talks about -/
+/-- the source's calls, in order, projected to what the documented order talks about
+    (local variable names are not part of it: only the callback-set FIELD and the time constant) -/
 def scheduleView : List (String × Nat × Bool × String × String) :=
   schedule.map (fun c => (c.fn, c.depth, isColGuard c.guard, c.set, c.time))
 
@@ -51,8 +52,8 @@ theorem c13_schedule : scheduleView = documentedSchedule := by decide
     existence of a header row: no other condition suppresses a callback -/
 theorem c13_guards : ∀ c ∈ schedule, c.guard = "" ∨ isColGuard c.guard = true ∨ isHeaderGuard c.guard = true := by decide
 
-/-- the object handed over is the live one: the source passes the table, the column pointer, the
-    row pointer and a pointer into the row's cell slice — never a copy -/
-theorem c13_targets : ∀ c ∈ schedule, c.target ∈ ["t", "col", "row", "ptr", "hr", ""] := by decide
+/-- the object handed over is the live one: no call passes the address of a loop copy
+    (`&col` of a range variable was exactly the repaired column defect) -/
+theorem c13_targets : ∀ c ∈ schedule, c.targetAddrOf = false := by decide
 
 end Tab
